@@ -4,18 +4,18 @@ F = "harness/C11_cait_complete.py"
 EXPLANATION = (
     "The pattern must be source text, so nothing about the pattern can stay symbolic: here the solver's role is to ENUMERATE, "
     "path by path and with a completeness verdict ('Confirmed over all paths' = no further feasible choice), a finite grid: "
-    "16 student templates (assignment with +, *, -; augmented assignment; if/else; for; call; method call; while; 3- and "
-    "4-statement programs; def/return; list/subscript; try/except/finally; nested def/for/if/return; repeated calls) x identifiers from {a, b, ab} in each of three slots (so all "
-    "coincidences of variables) x constants from {0, 1, 2, 's'} x 9 derivation kinds (whole program; one statement; ___ for "
+    "18 student templates (assignment with +, *, -; augmented assignment; if/else; for; call; method call; while; 3- and "
+    "4-statement programs; def/return; list/subscript; try/except/finally; nested def/for/if/return; repeated calls; match/case; dunder attributes) x identifiers from {a, b, ab} in each of three slots (so all "
+    "coincidences of variables) x constants from {0, 1, 2, 's'} x 10 derivation kinds (whole program; one statement; ___ for "
     "a sub-expression; __e__ for a sub-expression; _v_ for every occurrence of one identifier; a sibling statement dropped; "
-    "_v_ and ___ combined; a statement dropped + _v_ + ___ for every constant (+ ___ for another name)) x up to 16 positions. For each choice the pattern is derived from a fresh parse of the student "
+    "_v_ and ___ combined; a statement dropped + _v_ + ___ for every constant (+ ___ for another name); a statement dropped + _v_ + every other identifier by its own placeholder + ___ for every constant) x up to 16 positions. For each choice the pattern is derived from a fresh parse of the student "
     "program with ast transformers + ast.unparse and the real find_matches runs (untraced, all values are concrete on the "
     "path). Oracle: at least one match; some match binds _v_ (symbol or function table) to the replaced identifier, or "
     "__e__ to the node at the replaced position.")
 FUNCTIONS = ["pedal.cait.stretchy_tree_matching.StretchyTreeMatcher (find_matches, any_node_match, deep_find_match_*, map_merge)",
              "pedal.cait.ast_map.AstMap (symbol/function/expression tables)", "pedal.cait.cait_node.CaitNode"]
-BOUNDS = {"quick": "6 templates x 5 derivation kinds, constants from {0, 1}", "thorough": "13 templates x 7 derivation kinds, constants from {0, 1, 2, 's'}"}
-OUTSIDE = ["programs outside the 13 templates", "nested generalisations beyond one _v_ plus one ___", "identifiers beyond the 3-entry menu"]
+BOUNDS = {"quick": "11 templates x 5-7 derivation kinds each, constants from {0, 1}", "thorough": "18 templates x 10 derivation kinds, constants from {0, 1, 2, 's'}"}
+OUTSIDE = ["programs outside the 18 templates", "generalisations other than the 10 listed kinds (e.g. __e__ nested inside a _v_ pattern)", "identifiers beyond the 3-entry menu"]
 ASSUMPTIONS = ["finite grid enumerated by the solver; the matcher itself runs on concrete values (untraced)", "FeedbackFieldWrapper copy-safety shim"]
 
 
@@ -23,12 +23,13 @@ def obligations(tier):
     obs = []
     w = "pattern derived from the student's own program (template t, derivation d) is found, and a match binds the placeholder to what it replaced"
     if tier == "quick":
-        for t in (0, 4, 5, 9, 11, 12, 13, 14, 15):
-            for d in ((2, 3, 4, 5, 6) if t not in (9, 11) else (2, 3, 4, 5, 6, 7, 8)):
+        for t in (0, 4, 5, 9, 11, 12, 13, 14, 15, 16, 17):
+            for d in {9: (2, 3, 4, 5, 6, 7, 8), 11: (2, 3, 4, 5, 6, 7, 8), 13: (1, 2, 3, 4, 5, 6), 14: (1, 2, 3, 4, 6),
+                      15: (2, 3, 4, 5, 6, 9), 16: (1, 2, 3, 4, 6), 17: (0, 1, 2, 4, 5, 6)}.get(t, (2, 3, 4, 5, 6)):
                 obs.append(Ob("C11.derive", F, "derive", 200, part="%d,%d,q" % (t, d), what=w))
     else:
-        for t in range(16):
-            for d in range(9):
+        for t in range(18):
+            for d in range(10):
                 obs.append(Ob("C11.derive", F, "derive", 600, part="%d,%d" % (t, d), what=w))
     obs.append(Ob("C11.derive_reach", F, "derive_reach", 60, expect="refute", what="twin: a _v_ generalisation matches"))
     return obs
